@@ -21,4 +21,4 @@ Definition check (fx : fixes) (c : case) : verdict :=
   {| v_corr := oracle_ok q && outcome_eqb (serve fx q (c_pl c) (c_rule c)) (c_obs c);
      v_prop := spec_ok q (c_pl c) (c_rule c) (c_obs c);
      v_guards := guards [(1%Z, guard_F1 q (c_rule c) && negb (fx_f1 fx)); (2%Z, guard_F2 q); (3%Z, guard_F3 q (c_rule c));
-                         (4%Z, guard_F4 q (c_pl c)); (5%Z, guard_F5 (c_rule c))] |}.
+                         (4%Z, guard_F4 q (c_pl c) && negb (fx_f4 fx)); (5%Z, guard_F5 (c_rule c))] |}.
